@@ -20,3 +20,5 @@ def run(ck):
     region.r6_8_extents_before_data_is_dropped(ck, P)
     region.r1_aliasing(ck, P)                    # C05-R1: an operand overwritten while it is read leaves a malformed region
     region.r7_13_or_trick_exactness(ck, P, 'C06-R9')
+    region.r5_11_constructed_rectangle_validated(ck, P, 'C06-R10')   # a rectangle without points stored as a region is not canonical
+    region.r7_14_running_extremes_independent(ck, P, 'C06-R11')      # extents enclose the rectangles
